@@ -1,9 +1,11 @@
 (* C08 layer 2 (part 3) — Vario (with its VarioParam / DirParam part).  Executable definitions only (no proofs).
    Vario::_serialize / _deserialize   /repo/src/Variogram/Vario.cpp:1824-2029
    getDirSize = getLagTotalNumber * nvar (nvar+1)/2, getLagTotalNumber = asym ? 2 npas + 1 : npas   Vario.cpp:2111, 2170
-   Not written: the calculation type (the reader forces "vg": setCalculByName("vg")), the breaks of irregular lags (only
-   the flag), bench, cylrad, idate, dates, faults, the tolerance on angle of a direction defined on a grid.  Undefined
-   Sw/Hh/Gg are written as 0. *)
+   The calculation type (ECalcVario value) is written since calculation flag 3 and decides the number of results of a
+   direction (asymmetric calculations: covariance 1, covariogram 2, non-centred covariance 9; Vario.cpp:2120).
+   Undefined Sw/Hh/Gg are written as NA.
+   Not written: the breaks of irregular lags (only the flag), bench, cylrad, idate, dates, faults, the tolerance on
+   angle of a direction defined on a grid. *)
 From Coq Require Import Ascii String.
 From Coq Require Import List ZArith QArith Bool.
 From Gst Require Import C08.Codec C08.Model.
@@ -20,15 +22,16 @@ Record vdir := {
   vd_tolang : dbl; vd_codir : list dbl;
   vd_res : list triple }.     (* getDirSize(idir) entries *)
 Record vario := {
-  vr_ndim : Z; vr_nvar : Z; vr_scale : dbl; vr_asym : bool;
+  vr_ndim : Z; vr_nvar : Z; vr_scale : dbl; vr_calcul : Z;
   vr_names : list word; vr_vars : list (list dbl) (* nvar rows of nvar *); vr_dirs : list vdir }.
 
-Definition nz (d : dbl) : dbl := match d with None => d0 | Some _ => d end.          (* FFFF(x) ? 0. : x *)
+Definition is_asym (calcul : Z) : bool := (calcul =? 1) || (calcul =? 2) || (calcul =? 9).      (* _setFlagAsym *)
+Definition lag_total (calcul npas : Z) : Z := if is_asym calcul then 2 * npas + 1 else npas.   (* getLagTotalNumber *)
 Definition dbl_of_Z (z : Z) : dbl := Some (inject_Z z).
 Definition unknown : word := W "Unknown".
 
 Definition ser_triple (t : triple) : list record :=
-  let '(sw, hh, gg) := t in [ r_dbl "" (nz sw); r_dbl "" (nz hh); r_dbl "" (nz gg); r_com "" ].
+  let '(sw, hh, gg) := t in [ r_dbl "" sw; r_dbl "" hh; r_dbl "" gg; r_com "" ].
 Definition ser_vdir (d : vdir) : list record :=
   [ r_com "Direction characteristics";
     r_int "Regular lags" (b2z (vd_regular d)); r_int "Number of lags" (vd_npas d); r_int "" (vd_optcode d);
@@ -42,11 +45,12 @@ Definition ser_vdir (d : vdir) : list record :=
 
 Definition ser_Vario (o : vario) : list record :=
   [ r_int "Space Dimension" (vr_ndim o); r_int "Number of variables" (vr_nvar o);
-    r_int "Number of directions" (lenZ (vr_dirs o)); r_dbl "Scale" (vr_scale o); r_int "Calculation Flag" 2;
+    r_int "Number of directions" (lenZ (vr_dirs o)); r_dbl "Scale" (vr_scale o); r_int "Calculation Flag" 3;
     r_com "Variable Names" ]
   ++ map (fun i => r_str "" (nth i (vr_names o) unknown)) (seq 0 (Z.to_nat (vr_nvar o)))
   ++ [ r_com ""; r_com "Variance" ]
   ++ flat_map (fun row => map (r_dbl "") row ++ [ r_com "" ]) (vr_vars o)
+  ++ [ r_int "Calculation Type" (vr_calcul o) ]
   ++ flat_map ser_vdir (vr_dirs o).
 
 Definition rd_triple : reader triple :=
@@ -55,29 +59,31 @@ Definition cap90 (d : dbl) : dbl :=                      (* if (_tolAngle > 90.)
   match d with Some q => if Qle_bool q 90 then d else Some 90%Q | None => Some 90%Q end.   (* TEST > 90 *)
 
 (* one direction; tolang is the C++ local variable that survives from one direction to the next *)
-Definition rd_vdir (ndim nvar fcalc : Z) (tolang : dbl) : reader (vdir * dbl) :=
+Definition rd_vdir (ndim nvar fcalc calcul : Z) (tolang : dbl) : reader (vdir * dbl) :=
   freg <- rd_int ;; npas <- rd_int ;; optcode <- rd_int ;; tolcode <- rd_dbl ;; dpas <- rd_dbl ;; toldis <- rd_dbl ;;
   fgrid <- rd_int ;;
   gc <- (if z2b fgrid
          then g <- rd_vint ndim ;; c <- rd_vdbl ndim ;; ret (g, c, tolang)
          else ta <- rd_dbl ;; c <- rd_vdbl ndim ;; ret ([], c, ta)) ;;
   let '(g, c, ta) := gc in
-  (* setCalculByName("vg"): the direction holds npas * nvar (nvar+1)/2 results *)
-  res <- (if z2b fcalc then rrepZ (npas * (nvar * (nvar + 1) / 2)) rd_triple else ret []) ;;
+  (* getDirSize: the direction holds lagtotal * nvar (nvar+1)/2 results *)
+  res <- (if z2b fcalc then rrepZ (lag_total calcul npas * (nvar * (nvar + 1) / 2)) rd_triple else ret []) ;;
   ret ({| vd_regular := true; vd_npas := npas; vd_optcode := optcode; vd_tolcode := tolcode; vd_dpas := dpas;
           vd_toldist := toldis; vd_grincr := g; vd_tolang := cap90 ta; vd_codir := c; vd_res := res |}, ta).
-Fixpoint rd_vdirs (n : nat) (ndim nvar fcalc : Z) (tolang : dbl) : reader (list vdir) :=
+Fixpoint rd_vdirs (n : nat) (ndim nvar fcalc calcul : Z) (tolang : dbl) : reader (list vdir) :=
   match n with
   | O => ret []
-  | S k => dt <- rd_vdir ndim nvar fcalc tolang ;; ds <- rd_vdirs k ndim nvar fcalc (snd dt) ;; ret (fst dt :: ds)
+  | S k => dt <- rd_vdir ndim nvar fcalc calcul tolang ;; ds <- rd_vdirs k ndim nvar fcalc calcul (snd dt) ;; ret (fst dt :: ds)
   end.
 
 Definition deser_Vario : reader vario :=
   ndim <- rd_int ;; nvar <- rd_int ;; ndir <- rd_int ;; scale <- rd_dbl ;; fcalc <- rd_int ;;
-  names <- (if fcalc =? 2 then rrepZ nvar rd_str else ret (repeat unknown (Z.to_nat nvar))) ;;
+  names <- (if 2 <=? fcalc then rrepZ nvar rd_str else ret (repeat unknown (Z.to_nat nvar))) ;;
   (* without variances setVars keeps the identity of _initVars *)
   vars <- (if z2b fcalc then rrepZ nvar (rrepZ nvar rd_dbl)
            else ret (map (fun i => map (fun j => if Nat.eqb i j then d1 else d0) (seq 0 (Z.to_nat nvar))) (seq 0 (Z.to_nat nvar)))) ;;
-  dirs <- rd_vdirs (Z.to_nat ndir) ndim nvar fcalc d0 ;;
-  ret {| vr_ndim := ndim; vr_nvar := nvar; vr_scale := scale; vr_asym := false;
+  (* files written before the calculation type was stored (flag < 3) are variograms: setCalculByName("vg") *)
+  calcul <- (if 3 <=? fcalc then rd_int else ret 0) ;;
+  dirs <- rd_vdirs (Z.to_nat ndir) ndim nvar fcalc calcul d0 ;;
+  ret {| vr_ndim := ndim; vr_nvar := nvar; vr_scale := scale; vr_calcul := calcul;
          vr_names := names; vr_vars := vars; vr_dirs := dirs |}.
